@@ -77,7 +77,10 @@ def _gen_batch_cases(rng, n):
              ((2, 3), 0, (2, 2, 3), 0), ((2, 3), 0, (2, 3), 0), ((2, 3), 1, (2, 3), 1), ((2, 3), 1, (3, 2), 0),
              ((3, 2), 0, (), None), ((), None, (2, 3), 1), ((3,), 0, (3,), 0), ((2, 1), 0, (2, 3, 4), 0),
              ((2, 1, 1), 0, (3, 2, 2), 1), ((2, 3), 0, (4, 3), None), ((2, 3), 0, (1, 3), None),
-             ((2, 3), 0, (2, 4, 3), 0), ((3, 2), 1, (4, 3), None)]
+             ((2, 3), 0, (2, 4, 3), 0), ((3, 2), 1, (4, 3), None),
+             # identical (square) operand shapes mapped along DIFFERENT axes: must not take the "agreeing dims" fast path
+             ((3, 3), 0, (3, 3), 1), ((3, 3), 1, (3, 3), 0), ((2, 2, 2), 0, (2, 2, 2), 2), ((2, 2, 2), 2, (2, 2, 2), 1),
+             ((2, 2), 1, (2, 2), 0), ((3, 3, 3), 1, (3, 3, 3), 0), ((2, 2), 0, (2, 2), 0), ((3, 3), 1, (3, 3), 1)]
     cases += fixed
     while len(cases) < n:
         B = rng.choice([1, 2, 3])
@@ -89,6 +92,11 @@ def _gen_batch_cases(rng, n):
             s = [d if rng.random() < 0.7 else 1 for d in out[r_out - r:]] if r else []
             return s
         px, py = operand(), operand()
+        if rng.random() < 0.2:                     # same cubic shape, independent batch dims
+            r = rng.randint(1, 3)
+            m = rng.choice([2, 3])
+            cases.append(((m,) * r, rng.randint(0, r - 1), (m,) * r, rng.randint(0, r - 1)))
+            continue
         mode = rng.choice(["xy", "x", "y", "xy"])
         dx = dy = None
         sx, sy = list(px), list(py)
@@ -552,6 +560,14 @@ def _functions():
     reg("sub_div_mixed", lambda x, y: (y - x) / (1.0 + x * x), [(3,), (2, 3)])
     reg("where_mixed", lambda x, y: jnp.where(y > 0, x, y), [(3,), (2, 3)])
     reg("add_same", lambda x, y: jnp.add(x, y) * 0.5, [(2, 3), (2, 3)])
+    # square operands: under vmap(in_axes=(0,1)) etc. both batched operands have the SAME shape but different batch dims
+    reg("add_sq", lambda x, y: jnp.add(x, y), [(3, 3), (3, 3)])
+    reg("sub_sq", lambda x, y: jnp.subtract(x, y), [(3, 3), (3, 3)])
+    reg("where_sq", lambda x, y: jnp.where(x > 0.2, x, y), [(3, 3), (3, 3)])
+    reg("maximum_sq", lambda x, y: jnp.maximum(x, y), [(3, 3), (3, 3)])
+    reg("divide_sq", lambda x, y: jnp.divide(x, y * y + 1.0), [(3, 3), (3, 3)])
+    reg("pow_sq", lambda x, y: jnp.power(jnp.abs(x) + 0.5, y), [(3, 3), (3, 3)])
+    reg("greater_sq", lambda x, y: jnp.where(jnp.greater(x, y), 1.0, -1.0) + jnp.where(jnp.less_equal(x, y), x, 0.0), [(3, 3), (3, 3)])
     reg("dot_vec", lambda x, y: jnp.dot(x, y), [(3,), (3,)])
     reg("dot_mat", lambda x, y: jnp.dot(x, y), [(3, 3), (3, 3)])
     reg("matmul_mat", lambda x, y: jnp.matmul(x, y), [(2, 3), (3, 2)])
@@ -598,6 +614,11 @@ def _transforms(name, spec):
     if n == 2:
         T.append(("vmap(0,None)", jax.vmap(f, in_axes=(0, None)), [sh_ins(shapes[0], 0), shapes[1]]))
         T.append(("vmap(None,0)", jax.vmap(f, in_axes=(None, 0)), [shapes[0], sh_ins(shapes[1], 0)]))
+        if len(shapes[1]) >= 1:
+            T.append(("vmap(0,1)", jax.vmap(f, in_axes=(0, 1)), [sh_ins(shapes[0], 0), sh_ins(shapes[1], 1)]))
+            T.append(("vmap(0,-1)", jax.vmap(f, in_axes=(0, -1)), [sh_ins(shapes[0], 0), sh_ins(shapes[1], len(shapes[1]))]))
+        if len(shapes[0]) >= 1 and len(shapes[1]) >= 1:
+            T.append(("vmap(1,1)", jax.vmap(f, in_axes=(1, 1)), [sh_ins(shapes[0], 1), sh_ins(shapes[1], 1)]))
         if len(shapes[0]) >= 1:
             T.append(("vmap(1,0)", jax.vmap(f, in_axes=(1, 0)), [sh_ins(shapes[0], 1), sh_ins(shapes[1], 0)]))
             T.append(("vmap(1,None)", jax.vmap(f, in_axes=(1, None)), [sh_ins(shapes[0], 1), shapes[1]]))
@@ -638,18 +659,22 @@ def _transforms(name, spec):
     return T
 
 
-T_PRIORITY = ["vmap0", "vmap(0,None)", "vmap(None,0)", "vmap(1,0)", "vmap1", "vmap0_out1", "grad", "vjp", "jvp", "jit", "nested_jit",
+T_PRIORITY = ["vmap0", "vmap(0,None)", "vmap(None,0)", "vmap(1,0)", "vmap(0,1)", "vmap1", "vmap0_out1", "grad", "vjp", "jvp", "jit", "nested_jit",
               "custom_jvp", "custom_vjp", "checkpoint", "value_and_grad", "grad_of_custom_vjp"]
-QUICK_T = {"vmap0", "vmap(0,None)", "vmap(None,0)", "vmap(1,0)", "vmap1", "vmap0_out1", "jit", "nested_jit", "grad",
+QUICK_T = {"vmap0", "vmap(0,None)", "vmap(None,0)", "vmap(1,0)", "vmap(0,1)", "vmap1", "vmap0_out1", "jit", "nested_jit", "grad",
            "jvp", "vjp", "checkpoint", "custom_jvp", "custom_vjp", "grad_of_custom_vjp", "value_and_grad"}
 
 
-def _run_one(fn, shapes, rng, rtol=RTOL, atol=ATOL):
+def _run_one(fn, shapes, rng, rtol=RTOL, atol=ATOL, ins=None):
     """-> ("ok"|"mismatch"|"reject"|"ref_error", detail)"""
     import jax
     import onnxruntime as ort
     from jax2onnx import to_onnx
-    ins = [rng.uniform(-1.5, 1.5, size=s).astype(np.float32) for s in shapes]
+    if ins is None:
+        ins = [rng.uniform(-1.5, 1.5, size=s).astype(np.float32) for s in shapes]
+    else:
+        ins = [np.asarray(a, dtype=np.float32) for a in ins]
+        shapes = [a.shape for a in ins]
     try:
         ref = _tree_np(fn(*ins))            # eager JAX first (also: a jitted callable is traced outside the conversion)
     except Exception as e:
@@ -739,6 +764,123 @@ def explore(ctx, budget_s):
 def hash_str(s):
     import hashlib
     return int(hashlib.sha1(s.encode()).hexdigest()[:8], 16)
+
+
+# ===================================================================== hand-written differentiation rules on boundary inputs
+BV = [-20.0, -2.0, -1.0, -1e-3, 0.0, 1e-3, 1.0, 2.0, 20.0]          # kinks at 0, saturation at +-20
+
+
+def _rule_families():
+    """plugin module (path under jax2onnx/plugins) whose JVP / transpose rule is HAND-WRITTEN -> [(case, f, [boundary inputs])].
+    The inputs sit on the case splits of the rule (kinks, exact zeros, ties, repeated indices, size-1 axes)."""
+    import jax
+    import jax.numpy as jnp
+    bv = np.asarray(BV, np.float32)
+    P = np.asarray([[0, 5, 0], [2, 0, 3], [1, 2, 3], [0, 0, 0], [-1, 2, -3]], np.float32)     # 2 / 1 / 0 / 3 zeros, negatives
+    P1 = np.asarray([[0.0], [2.0], [-3.0], [1.0]], np.float32)                                  # size-1 reduced axis
+    C = np.asarray([[0, 0, 2], [0, 4, 0], [3, 0, 0]], np.float32)                               # every column has exactly 2 zeros
+    T3 = np.asarray([[1, 3, 3, 2], [2, 2, 2, 2], [-1, -5, -1, 0]], np.float32)                  # ties
+    Y3 = np.asarray([[1, 0, 3, 5], [2, 2, 0, 2], [0, -5, -1, 1]], np.float32)
+    sel = np.asarray([-1.0, 0.0, 0.5, 1.0, 1.5, 0.0, 1.0], np.float32)
+    F = {
+        "jax/nn/relu": [("relu", lambda x: jax.nn.relu(x), [bv])],
+        "jax/nn/leaky_relu": [("leaky_relu", lambda x: jax.nn.leaky_relu(x), [bv]),
+                              ("leaky_relu_0.2", lambda x: jax.nn.leaky_relu(x, negative_slope=0.2), [bv])],
+        "jax/nn/elu": [("elu", lambda x: jax.nn.elu(x), [bv]), ("elu_0.5", lambda x: jax.nn.elu(x, alpha=0.5), [bv])],
+        "jax/nn/celu": [("celu", lambda x: jax.nn.celu(x), [bv]), ("celu_2", lambda x: jax.nn.celu(x, alpha=2.0), [bv])],
+        "jax/nn/selu": [("selu", lambda x: jax.nn.selu(x), [bv])],
+        "jax/nn/softsign": [("softsign", lambda x: jax.nn.soft_sign(x), [bv])],
+        "jax/nn/sigmoid": [("sigmoid", lambda x: jax.nn.sigmoid(x), [bv])],
+        "jax/nn/silu": [("silu", lambda x: jax.nn.silu(x), [bv])],
+        "jax/nn/gelu": [("gelu_tanh", lambda x: jax.nn.gelu(x, approximate=True), [bv / 4]),
+                        ("gelu_erf", lambda x: jax.nn.gelu(x, approximate=False), [bv / 4])],
+        "jax/nn/mish": [("mish", lambda x: jax.nn.mish(x), [bv])],
+        "jax/nn/softplus": [("softplus", lambda x: jax.nn.softplus(x), [bv])],
+        "jax/numpy/prod": [("prod_rows", lambda x: jnp.prod(x, axis=1), [P]),
+                           ("prod_cols", lambda x: jnp.prod(x, axis=0), [C]),
+                           ("prod_all", lambda x: jnp.prod(x), [C]),
+                           ("prod_all_onezero", lambda x: jnp.prod(x), [np.asarray([[2, 0], [3, -1]], np.float32)]),
+                           ("prod_keepdims", lambda x: jnp.prod(x, axis=1, keepdims=True), [P]),
+                           ("prod_size1_axis", lambda x: jnp.prod(x, axis=1), [P1]),
+                           ("prod_tuple_axes", lambda x: jnp.prod(x, axis=(0, 2)), [np.stack([P, P[::-1]])])],
+        "jax/numpy/where": [("where_ties", lambda x, y: jnp.where(x > y, x, y * 2.0), [T3, Y3]),
+                            ("where_const_cond", lambda x, y: jnp.where(T3 >= 2.0, x * x, y), [T3, Y3])],
+        "jax/numpy/select": [("select_boundaries", lambda x: jnp.select([x > 1.0, x > 0.0], [x * 2.0, x * x], default=-x), [sel])],
+        "jax/numpy/take": [("take_repeated", lambda x: jnp.take(x, np.asarray([0, 2, 2, 0, 3])) * x[1], [np.asarray([1.5, -2.0, 0.0, 3.0], np.float32)]),
+                           ("take_axis1", lambda x: jnp.take(x, np.asarray([3, 3, 0]), axis=1), [T3])],
+        "jax/numpy/sum": [("sum_all", lambda x: jnp.sum(x * x), [T3]), ("sum_axis0", lambda x: jnp.sum(x * x, axis=0), [T3]),
+                          ("sum_keepdims", lambda x: jnp.sum(jnp.sin(x), axis=1, keepdims=True), [T3]),
+                          ("sum_tuple", lambda x: jnp.sum(x * x, axis=(0, 2)), [np.stack([P, P[::-1]])])],
+        "jax/numpy/stack": [("stack0", lambda x: jnp.stack([x, 2.0 * x, x * x]), [bv[2:7]]),
+                            ("stack1", lambda x: jnp.stack([x, jnp.sin(x)], axis=1), [T3])],
+    }
+    # rules DERIVED from the original implementation (safe by construction) sampled at their ties / kinks as well
+    D = {
+        "derived:max_ties": ("max_ties", lambda x: jnp.max(x, axis=1), [T3]),
+        "derived:min_ties": ("min_ties", lambda x: jnp.min(x, axis=1), [T3]),
+        "derived:maximum_ties": ("maximum_ties", lambda x, y: jnp.maximum(x, y), [T3, np.where(Y3 > 1, T3, Y3).astype(np.float32)]),
+        "derived:abs_kink": ("abs_kink", lambda x: jnp.abs(x) * x, [bv]),
+        "derived:clip_edges": ("clip_edges", lambda x: jnp.clip(x, -1.0, 1.0), [bv]),
+        "derived:cumsum_prodlike": ("cumsum", lambda x: jnp.cumsum(x * x, axis=1), [T3]),
+        "derived:sort_repeated": ("sort_repeated", lambda x: jnp.sort(x, axis=1) * jnp.asarray([1.0, 2.0, 3.0, 4.0], dtype=x.dtype), [T3]),
+    }
+    return F, D
+
+
+def _rule_transforms(f, ins):
+    """grad / jvp / vjp / vmap-of-grad of f at the boundary inputs (all deterministic)"""
+    import jax
+    import jax.numpy as jnp
+    n = len(ins)
+    out = jax.eval_shape(f, *[jax.ShapeDtypeStruct(a.shape, jnp.float32) for a in ins])
+
+    def scal(*a):
+        r = f(*a)
+        w = (jnp.arange(1.0, 1.0 + r.size, dtype=r.dtype).reshape(r.shape)) / max(1, r.size)
+        return jnp.sum(r * w)
+    tang = [(np.cos(np.arange(a.size, dtype=np.float32)) + 0.5).reshape(a.shape).astype(np.float32) for a in ins]
+    ct = (np.sin(np.arange(int(np.prod(out.shape)) if out.shape else 1, dtype=np.float32)) + 1.5).reshape(out.shape).astype(np.float32)
+    argn = tuple(range(n))
+    return [
+        ("grad", jax.grad(scal, argnums=argn), list(ins)),
+        ("jvp", lambda *pt: jax.jvp(f, tuple(pt[:n]), tuple(pt[n:])), list(ins) + tang),
+        ("vjp", lambda *pc: jax.vjp(f, *pc[:n])[1](pc[n]), list(ins) + [ct]),
+        ("vmap_grad", jax.vmap(jax.grad(scal, argnums=argn)), [np.stack([a, a[::-1]]) for a in ins]),
+    ]
+
+
+def explore_rules(ctx, budget_s, handwritten_modules):
+    """every plugin with a hand-written JVP/transpose rule (inventory: gen/GenAutodiff.v) has a boundary family here"""
+    F, D = _rule_families()
+    missing = sorted(m for m in handwritten_modules if m not in F)
+    ctx.oblige(f"tie:every-hand-written-differentiation-rule-has-a-boundary-family({len(handwritten_modules)} plugins)", not missing, "tie",
+               "" if not missing else f"no boundary program family for {missing}")
+    t0 = time.time()
+    stats = {"ok": 0, "mismatch": 0, "reject": 0, "ref_error": 0}
+    per = {}
+    skipped = 0
+    order = sorted(F, key=lambda m: (m != "jax/numpy/prod", m))
+    jobs = [(m, c) for m in order for c in F[m]] + [(k, v) for k, v in D.items()]
+    for mod, (case, f, ins) in jobs:
+        try:
+            Ts = _rule_transforms(f, ins)
+        except Exception as e:
+            ctx.oblige(f"harness:rule-family-{case}", False, "tie", f"{type(e).__name__}: {e}")
+            continue
+        for (tn, g, gin) in Ts:
+            if time.time() - t0 > budget_s:
+                skipped += 1
+                continue
+            res, detail = _run_one(g, None, None, ins=gin)
+            stats[res] += 1
+            per.setdefault(mod, {"ok": 0, "mismatch": 0, "reject": 0, "ref_error": 0})[res] += 1
+            if res == "mismatch":
+                ctx.violate(f"rule:{tn}:{mod}:{case}",
+                            f"export of {tn}({case}) at the boundary input {[np.asarray(a).tolist() for a in gin][0]} does not compute what JAX computes: {detail}",
+                            {"kind": "rule", "T": tn, "module": mod, "case": case})
+    ctx.coverage.update({"rule_boundary_exports": sum(stats.values()), "rule_boundary_results": stats, "rule_boundary_per_plugin": per,
+                         "rule_boundary_jobs_skipped_for_time_budget": skipped})
+    return stats
 
 
 # ===================================================================== exploration: vmap over the testcase registry
